@@ -152,8 +152,8 @@ def CANDIDATES(func: str):
             yield [list(sel) + [0] * 6]
         return
     if func == "sites":
-        for sel in itertools.product(range(3), range(15), range(13), range(3), range(2)):
+        for sel in itertools.product(range(3), range(15), range(14), range(3), range(2)):
             yield [list(sel) + [0] * 5]
     else:
-        for sel in itertools.product(range(2), range(2), range(3), range(15), range(13), range(3), range(2)):
+        for sel in itertools.product(range(2), range(2), range(3), range(15), range(14), range(3), range(2)):
             yield [list(sel) + [0] * 3]
